@@ -421,29 +421,6 @@ Arguments sort_entries {V}.
 Arguments insert_entry {V}.
 
 (* ================================================================ DOK.__getitem__ *)
-(* all-array keys take _fancy_getitem (no normalisation at all); every other key is normalised HERE and
-   then once more by COO.__getitem__ (asformat("coo")[key]) *)
-Definition ientry_of (e : nentry) : ientry :=
-  match e with
-  | NInt i => IInt i
-  | NSlice s e' st => ISlice (Some s) (Some e') (Some st)
-  | NNone => INone
-  | NArr l => IArr l
-  end.
-
-Definition dok_renormalized (ix : index) (sh : shape) : res index :=
-  nix <- normalize_index ix sh ;; Ok (map ientry_of nix).
-
-(* domain clause D23: normalising twice selects what normalising once selects (per slice entry) *)
-Definition twice_same (sl : ientry) (dim : Z) : bool :=
-  match sl with
-  | ISlice a b c =>
-    match normalize_slice (pv_of sl) dim with
-    | Ok v => match selects (normalize_slice v dim), selects (Ok v) with
-              | Some l1, Some l2 => if list_eq_dec Z.eq_dec l1 l2 then true else false
-              | _, _ => true
-              end
-    | _ => true
-    end
-  | _ => true
-  end.
+(* a key made of arrays only takes _fancy_getitem; every other key goes, unchanged, to
+   self.asformat("coo")[key] and the result is converted back (modelled by the harness: the DOK
+   result is compared through its dense meaning). *)
